@@ -317,6 +317,10 @@ func oracleAll(queries []string) []string {
 			out[i] = oracleCSV(vh.UnHex(f[1]))
 			continue
 		}
+		if len(f) == 2 && f[0] == "clidec" {
+			out[i] = oracleCliDecode(string(vh.UnHex(f[1])))
+			continue
+		}
 		if len(f) == 2 && f[0] == "jany" {
 			out[i] = oracleJSONAny(vh.UnHex(f[1]))
 			continue
